@@ -20,16 +20,20 @@ PendingTok(st, id) == {k \in DOMAIN st : st[k].id = id /\ st[k].status = "pendin
 PendingIdsOf(st)   == {st[k].id : k \in {j \in DOMAIN st : st[j].status = "pending"}}
 Set(st, k, v)      == [x \in DOMAIN st \cup {k} |-> IF x = k THEN v ELSE st[x]]
 
-\* ApplyReq(o, st, impl) = [res, st]
-\* A make request for an id that is pending is not accepted.  mcrew answers "id exists".
-\* SioMakeOnPendingCancels (named deviation of the single-loop crew, whose requests have no
-\* reply): there the request is not accepted either, and it cancels the pending timer.
-ApplyReq(o, st, impl) ==
+\* ApplyReq(o, st, impl, mk) = [res, st]
+\* A make request for an id that is pending: mcrew answers "id exists" and nothing changes.  The single-loop crew's
+\* requests have no reply; what the code does today is the named deviation SioMakeOnPendingCancels (mk = "cancel":
+\* the request is not accepted, and it cancels the pending timer); a crew in which the new timer REPLACES the pending
+\* one (mk = "replace") satisfies the property just as well, so the judge admits either - one of them per history.
+ApplyReq(o, st, impl, mk) ==
   IF o.kind = "add" THEN
        IF PendingTok(st, o.id) # {} THEN
             IF impl = "sio"
-            THEN LET k == CHOOSE x \in PendingTok(st, o.id) : TRUE IN
-                 [res |-> "ok", st |-> Set(st, k, [st[k] EXCEPT !.status = "cancelled"])]
+            THEN LET k == CHOOSE x \in PendingTok(st, o.id) : TRUE
+                     cancelled == Set(st, k, [st[k] EXCEPT !.status = "cancelled"]) IN
+                 IF mk = "replace"
+                 THEN [res |-> "ok", st |-> Set(cancelled, o.op, [id |-> o.id, status |-> "pending", d |-> o.d, t |-> o.t])]
+                 ELSE [res |-> "ok", st |-> cancelled]
             ELSE [res |-> "exists", st |-> st]
        ELSE [res |-> "ok", st |-> Set(st, o.op, [id |-> o.id, status |-> "pending", d |-> o.d, t |-> o.t])]
   ELSE IF PendingTok(st, o.id) = {} THEN [res |-> "notfound", st |-> st]
